@@ -46,7 +46,11 @@ def main():
     ansi_string.AnsiString.WITH_ASSERTIONS = True
     from vlib import core
     try:
-        return core.run_property(a.pid.upper(), a.tier, seed, replay=a.replay, only_sub=a.sub, scale=a.scale)
+        rc = core.run_property(a.pid.upper(), a.tier, seed, replay=a.replay, only_sub=a.sub, scale=a.scale)
+        if core.STATE['truncated']:
+            sys.stdout.flush()
+            os._exit(rc)   # stuck workers were killed: skip the executor's exit hooks
+        return rc
     except core.HarnessError as e:
         print('HARNESS-ERROR %s' % e)
         return 2
